@@ -251,6 +251,9 @@ private theorem OwnedVal.mono {h h' : Heap} (e : Ext h h') {v : Val} (hv : Owned
     · exact Or.inl ⟨kvs, e.get hk⟩
     · exact Or.inr ⟨i, e.get hk⟩
 
+private theorem isOwned_mono {h h' : Heap} (e : Ext h h') {a : Addr} (hv : isOwned h a) : isOwned h' a := by
+  obtain ⟨kvs, hk⟩ := hv; exact ⟨kvs, e.get hk⟩
+
 private theorem Cls.mono {own : Bool} {h h' : Heap} (e : Ext h h') {v : Val} (hv : Cls own h v) : Cls own h' v := by
   cases own
   · exact UserVal.mono e hv
@@ -271,10 +274,10 @@ private theorem get_append_one {h : Heap} {o x : Obj} {a : Addr} (hg : (h ++ [o]
 private theorem HeapInv.alloc_dict {h : Heap} (hi : HeapInv h) (own : Bool) (kvs : List (Key × Val))
     (hk : ∀ p ∈ kvs, Cls own h p.2) (hn : (kvs.map (·.1)).Nodup) : HeapInv (h ++ [.dict own kvs]) := by
   have e : Ext h (h ++ [.dict own kvs]) := Ext.append _ _
-  refine ⟨?_, ?_, ?_, ?_, ?_⟩
+  refine ⟨?_, ?_, ?_, ?_, ?_, ?_⟩
   · intro f i hf
     rcases get_append_one hf with h1 | ⟨_, h2⟩
-    · exact OwnedVal.mono (v := .ref i) e (hi.frozen_inner f i h1)
+    · exact isOwned_mono e (hi.frozen_inner f i h1)
     · cases h2
   · intro a kvs' ha p hp
     rcases get_append_one ha with h1 | ⟨_, h2⟩
@@ -284,6 +287,10 @@ private theorem HeapInv.alloc_dict {h : Heap} (hi : HeapInv h) (own : Bool) (kvs
     rcases get_append_one ha with h1 | ⟨_, h2⟩
     · exact UserVal.mono e (hi.user_closed a kvs' h1 p hp)
     · cases h2; exact UserVal.mono e (hk p hp)
+  · intro f i hf
+    rcases get_append_one hf with h1 | ⟨_, h2⟩
+    · exact hi.frozen_down f i h1
+    · cases h2
   · intro a o' kvs' ha
     rcases get_append_one ha with h1 | ⟨_, h2⟩
     · exact hi.keys_nodup a o' kvs' h1
@@ -294,20 +301,19 @@ private theorem HeapInv.alloc_dict {h : Heap} (hi : HeapInv h) (own : Bool) (kvs
     · cases h2
       have := hk p hp
       rw [hb] at this
-      obtain ⟨k1, hk1⟩ := this
       rw [h3]
-      rcases Nat.lt_or_ge b h.length with h4 | h4
-      · exact h4
-      · rw [List.getElem?_eq_none h4] at hk1; cases hk1
+      rcases this with ⟨k1, hk1⟩ | ⟨k1, hk1⟩
+      · exact lt_length_of_get hk1
+      · exact lt_length_of_get hk1
 
 private theorem HeapInv.alloc_frozen {h : Heap} (hi : HeapInv h) (j : Addr) (hj : isOwned h j) :
     HeapInv (h ++ [.frozen j]) := by
   have e : Ext h (h ++ [.frozen j]) := Ext.append _ _
-  refine ⟨?_, ?_, ?_, ?_, ?_⟩
+  refine ⟨?_, ?_, ?_, ?_, ?_, ?_⟩
   · intro f i hf
     rcases get_append_one hf with h1 | ⟨_, h2⟩
-    · exact OwnedVal.mono (v := .ref i) e (hi.frozen_inner f i h1)
-    · cases h2; exact OwnedVal.mono (v := .ref j) e hj
+    · exact isOwned_mono e (hi.frozen_inner f i h1)
+    · cases h2; exact isOwned_mono e hj
   · intro a kvs' ha p hp
     rcases get_append_one ha with h1 | ⟨_, h2⟩
     · exact OwnedVal.mono e (hi.owned_closed a kvs' h1 p hp)
@@ -316,6 +322,12 @@ private theorem HeapInv.alloc_frozen {h : Heap} (hi : HeapInv h) (j : Addr) (hj 
     rcases get_append_one ha with h1 | ⟨_, h2⟩
     · exact UserVal.mono e (hi.user_closed a kvs' h1 p hp)
     · cases h2
+  · intro f i hf
+    rcases get_append_one hf with h1 | ⟨h3, h2⟩
+    · exact hi.frozen_down f i h1
+    · cases h2
+      obtain ⟨k1, hk1⟩ := hj
+      rw [h3]; exact lt_length_of_get hk1
   · intro a o' kvs' ha
     rcases get_append_one ha with h1 | ⟨_, h2⟩
     · exact hi.keys_nodup a o' kvs' h1
@@ -544,8 +556,7 @@ private theorem deep_spec : ∀ (n : Nat) (m : Mode) (own : Bool) (h : Heap) (v 
             | false =>
               refine ⟨Or.inl (hi.user_closed a kvs hget p hp), ?_⟩
               intro h1 h2
-              obtain ⟨kvs2, hk2⟩ := hpre.2 h1 h2
-              rw [hget] at hk2; cases hk2
+              rcases hpre.2 h1 h2 with ⟨kvs2, hk2⟩ | ⟨j2, hk2⟩ <;> (rw [hget] at hk2; cases hk2)
           obtain ⟨i1, q1⟩ := mapKvs_spec (deep m own n) (DeepPre m own) (Cls own)
             (fun _ _ _ e => DeepPre.mono e) (fun _ _ _ e => Cls.mono e)
             (fun h v h' v' => deep_ext n m own h v h' v')
@@ -554,18 +565,18 @@ private theorem deep_spec : ∀ (n : Nat) (m : Mode) (own : Bool) (h : Heap) (v 
           refine ⟨HeapInv.alloc_dict i1 own kvs' q1 (by rw [hkeys]; exact nodup_ord (hi.keys_nodup a o kvs hget)), ?_⟩
           cases own
           · exact Or.inl ⟨kvs', by simp⟩
-          · exact ⟨kvs', by simp⟩
+          · exact Or.inl ⟨kvs', by simp⟩
       · rename_i i hget
         have hinner : isOwned h i := hi.frozen_inner a i hget
         cases m with
         | prepare =>
           simp at hd; obtain ⟨rfl, rfl⟩ := hd
           rw [hm1 rfl]
-          exact ⟨hi, hinner⟩
+          exact ⟨hi, Or.inl hinner⟩
         | unfreeze =>
           simp only at hd
           exact ih .tree own h (.ref i) h' v' (by simp) (by simp) hi
-            ⟨Or.inr hinner, fun _ _ => hinner⟩ hd
+            ⟨Or.inr (Or.inl hinner), fun _ _ => Or.inl hinner⟩ hd
         | tree =>
           simp only at hd
           split at hd
@@ -573,14 +584,16 @@ private theorem deep_spec : ∀ (n : Nat) (m : Mode) (own : Bool) (h : Heap) (v 
           · rename_i h1 j hr
             simp at hd
             obtain ⟨rfl, rfl⟩ := hd
-            cases own with
-            | true =>
-              obtain ⟨kvs2, hk2⟩ := hpre.2 rfl rfl
-              rw [hget] at hk2; cases hk2
-            | false =>
-              obtain ⟨i1, q1⟩ := ih .tree true h (.ref i) h1 (.ref j) (by simp) (by simp) hi
-                ⟨Or.inr hinner, fun _ _ => hinner⟩ hr
-              exact ⟨HeapInv.alloc_frozen i1 j q1, Or.inr ⟨j, by simp⟩⟩
+            obtain ⟨i1, _⟩ := ih .tree true h (.ref i) h1 (.ref j) (by simp) (by simp) hi
+              ⟨Or.inr (Or.inl hinner), fun _ _ => Or.inl hinner⟩ hr
+            obtain ⟨kvsi, hgi⟩ := hinner
+            obtain ⟨j', kvsj, hj1, hj2⟩ := deep_of_dict hgi hr
+            injection hj1 with hj1
+            subst hj1
+            refine ⟨HeapInv.alloc_frozen i1 j ⟨kvsj, hj2⟩, ?_⟩
+            cases own
+            · exact Or.inr ⟨j, by simp⟩
+            · exact Or.inr ⟨j, by simp⟩
           · cases hd
 
 private theorem mem_kvSet {α : Type} {kvs : List (Key × α)} {k : Key} {v : α} {p : Key × α}
@@ -776,19 +789,27 @@ private theorem OwnedVal.set {h : Heap} {a : Addr} {kvs kvs' : List (Key × Val)
   cases v with
   | leaf l => trivial
   | ref b =>
-    obtain ⟨k1, h1⟩ := hv
-    have hab : a ≠ b := by intro hab; subst hab; rw [hg] at h1; cases h1
-    exact ⟨k1, by rw [get_set_ne hab]; exact h1⟩
+    rcases hv with ⟨k1, h1⟩ | ⟨k1, h1⟩
+    · have hab : a ≠ b := by intro hab; subst hab; rw [hg] at h1; cases h1
+      exact Or.inl ⟨k1, by rw [get_set_ne hab]; exact h1⟩
+    · have hab : a ≠ b := by intro hab; subst hab; rw [hg] at h1; cases h1
+      exact Or.inr ⟨k1, by rw [get_set_ne hab]; exact h1⟩
+
+private theorem isOwned_set {h : Heap} {a b : Addr} {kvs kvs' : List (Key × Val)}
+    (hg : h[a]? = some (.dict false kvs)) (hv : isOwned h b) : isOwned (h.set a (.dict false kvs')) b := by
+  obtain ⟨k1, h1⟩ := hv
+  have hab : a ≠ b := by intro hab; subst hab; rw [hg] at h1; cases h1
+  exact ⟨k1, by rw [get_set_ne hab]; exact h1⟩
 
 private theorem HeapInv.set_user {h : Heap} {a : Addr} {kvs kvs' : List (Key × Val)} (hi : HeapInv h)
     (hg : h[a]? = some (.dict false kvs)) (hk : ∀ p ∈ kvs', UserVal h p.2)
     (hn : (kvs'.map (·.1)).Nodup) :
     HeapInv (h.set a (.dict false kvs')) := by
-  refine ⟨?_, ?_, ?_, ?_, ?_⟩
+  refine ⟨?_, ?_, ?_, ?_, ?_, ?_⟩
   · intro f i hf
     have hne : a ≠ f := by intro e; subst e; rw [get_set_eq hg] at hf; cases hf
     rw [get_set_ne hne] at hf
-    exact OwnedVal.set (v := .ref i) hg (hi.frozen_inner f i hf)
+    exact isOwned_set hg (hi.frozen_inner f i hf)
   · intro b kvs2 hb p hp
     have hne : a ≠ b := by intro e; subst e; rw [get_set_eq hg] at hb; cases hb
     rw [get_set_ne hne] at hb
@@ -800,6 +821,10 @@ private theorem HeapInv.set_user {h : Heap} {a : Addr} {kvs kvs' : List (Key × 
       exact UserVal.set hg (hk p hp)
     · rw [get_set_ne hab] at hb
       exact UserVal.set hg (hi.user_closed b kvs2 hb p hp)
+  · intro f i hf
+    have hne : a ≠ f := by intro e; subst e; rw [get_set_eq hg] at hf; cases hf
+    rw [get_set_ne hne] at hf
+    exact hi.frozen_down f i hf
   · intro b o2 kvs2 hb
     by_cases hab : a = b
     · subst hab
@@ -1102,8 +1127,8 @@ theorem step_preserves_sep (w w' : World) (op : Op) (hs : Sep w) (h : step w op 
 /-- the empty world satisfies the invariant -/
 theorem sep_init : Sep World.init :=
   ⟨⟨by intro f i h; simp [World.init] at h, by intro a k h; simp [World.init] at h,
-    by intro a k h; simp [World.init] at h, by intro a o k h; simp [World.init] at h,
-    by intro a k h; simp [World.init] at h⟩,
+    by intro a k h; simp [World.init] at h, by intro f i h; simp [World.init] at h,
+    by intro a o k h; simp [World.init] at h, by intro a k h; simp [World.init] at h⟩,
    by intro v hv; simp [World.init] at hv⟩
 
 /-- the invariant holds after every history -/
@@ -1166,34 +1191,32 @@ private theorem absKvs_congr {f g : Val → Option Tree} {kvs : List (Key × Val
     rw [h (k, v) (by simp), ih (fun p hp => h p (by simp [hp]))]
 
 private theorem abs_owned_stable {h h' : Heap} (hi : HeapInv h) (st : Stable h h') :
-    ∀ (n : Nat) (v : Val), OwnedVal h v → absVal true n h' v = absVal true n h v := by
+    ∀ (n : Nat) (fz : Bool) (v : Val), OwnedVal h v → absVal fz n h' v = absVal fz n h v := by
   intro n
   induction n with
-  | zero => intro v _; cases v <;> simp [absVal]
+  | zero => intro fz v _; cases v <;> simp [absVal]
   | succ n ih =>
-    intro v hv
+    intro fz v hv
     cases v with
     | leaf l => simp [absVal]
     | ref a =>
-      obtain ⟨kvs, hk⟩ := hv
-      simp only [absVal]
-      rw [st a (Or.inl ⟨kvs, hk⟩), hk]
-      simp only
-      rw [absKvs_congr (fun p hp => ih p.2 (hi.owned_closed a kvs hk p hp))]
+      rcases hv with ⟨kvs, hk⟩ | ⟨i, hf⟩
+      · simp only [absVal]
+        rw [st a (Or.inl ⟨kvs, hk⟩), hk]
+        simp only
+        rw [absKvs_congr (fun p hp => ih fz p.2 (hi.owned_closed a kvs hk p hp))]
+      · obtain ⟨kvs, hk⟩ := hi.frozen_inner a i hf
+        simp only [absVal]
+        rw [st a (Or.inr ⟨i, hf⟩), hf]
+        simp only
+        rw [st i (Or.inl ⟨kvs, hk⟩), hk]
+        simp only
+        rw [absKvs_congr (fun p hp => ih true p.2 (hi.owned_closed i kvs hk p hp))]
 
 private theorem abs_frozen_stable {h h' : Heap} (hi : HeapInv h) (st : Stable h h') {f i : Addr}
     (hf : h[f]? = some (.frozen i)) (fz : Bool) (n : Nat) :
-    absVal fz n h' (.ref f) = absVal fz n h (.ref f) := by
-  cases n with
-  | zero => simp [absVal]
-  | succ n =>
-    obtain ⟨kvs, hk⟩ := hi.frozen_inner f i hf
-    simp only [absVal]
-    rw [st f (Or.inr ⟨i, hf⟩), hf]
-    simp only
-    rw [st i (Or.inl ⟨kvs, hk⟩), hk]
-    simp only
-    rw [absKvs_congr (fun p hp => abs_owned_stable hi st n p.2 (hi.owned_closed i kvs hk p hp))]
+    absVal fz n h' (.ref f) = absVal fz n h (.ref f) :=
+  abs_owned_stable hi st n fz (.ref f) (Or.inr ⟨i, hf⟩)
 
 /-- **A FrozenDict never changes.**  Take any world satisfying the invariant (in particular any world
 reached from the empty one, `sep_run`), any FrozenDict `f` in it, and *any* further history of API calls
@@ -1238,14 +1261,15 @@ inductive Reach (h : Heap) : Addr → Addr → Prop where
       h[a]? = some (Obj.dict o kvs) → (k, Val.ref b) ∈ kvs → Reach h b c → Reach h a c
 
 private theorem reach_owned {h : Heap} (hi : HeapInv h) {a c : Addr} (hr : Reach h a c) :
-    isOwned h a → isOwned h c := by
+    (isOwned h a ∨ isFrozen h a) → (isOwned h c ∨ isFrozen h c) := by
   induction hr with
   | refl a => exact id
   | step hg hm _ ih =>
     intro ha
-    obtain ⟨k1, h1⟩ := ha
-    rw [hg] at h1; cases h1
-    exact ih (hi.owned_closed _ _ hg _ hm)
+    rcases ha with ⟨k1, h1⟩ | ⟨j, h1⟩
+    · rw [hg] at h1; cases h1
+      exact ih (hi.owned_closed _ _ hg _ hm)
+    · rw [hg] at h1; cases h1
 
 private theorem reach_user {h : Heap} (hi : HeapInv h) {a c : Addr} (hr : Reach h a c) :
     (isUser h a ∨ isFrozen h a) → (isUser h c ∨ isFrozen h c) := by
@@ -1258,23 +1282,29 @@ private theorem reach_user {h : Heap} (hi : HeapInv h) {a c : Addr} (hr : Reach 
       exact ih (hi.user_closed _ _ hg _ hm)
     · rw [hg] at h1; cases h1
 
-/-- **Separation**: no object reachable from the `_dict` of any FrozenDict `f` (that dict itself
-included) is reachable from any value the user holds — the sources a FrozenDict was built from, and
-everything any API call ever returned, are all among the held values.  (A held FrozenDict is a
-terminal object for `Reach`: the user cannot walk into it, `__getitem__`/iteration hand out copies.) -/
-theorem frozen_separation (w : World) (hs : Sep w) (f i r c : Addr)
+/-- **Separation**: no *dict* (the only mutable kind of object) reachable from the `_dict` of any
+FrozenDict `f` (that dict itself included) is reachable from any value the user holds — the sources a
+FrozenDict was built from, and everything any API call ever returned, are all among the held values.
+(A FrozenDict object is terminal for `Reach`: nobody can walk into it, `__getitem__`/iteration hand
+out copies; FrozenDict objects themselves may be shared — `tree_unflatten` keeps a FrozenDict child as
+it is — which is harmless because they never change.) -/
+theorem frozen_separation (w : World) (hs : Sep w) (f i r c : Addr) (o : Bool) (kvs : List (Key × Val))
     (hf : w.heap[f]? = some (Obj.frozen i)) (hr : Val.ref r ∈ w.roots)
+    (hc : w.heap[c]? = some (Obj.dict o kvs))
     (h1 : Reach w.heap i c) (h2 : Reach w.heap r c) : False := by
-  obtain ⟨k1, e1⟩ := reach_owned hs.heap h1 (hs.heap.frozen_inner f i hf)
-  rcases reach_user hs.heap h2 (hs.roots _ hr) with ⟨k2, e2⟩ | ⟨j, e2⟩
-  · rw [e1] at e2; cases e2
-  · rw [e1] at e2; cases e2
+  have e1 := reach_owned hs.heap h1 (Or.inl (hs.heap.frozen_inner f i hf))
+  have e2 := reach_user hs.heap h2 (hs.roots _ hr)
+  rcases e1 with ⟨k1, e1⟩ | ⟨j, e1⟩
+  · rw [hc] at e1; cases e1
+    rcases e2 with ⟨k2, e2⟩ | ⟨j, e2⟩ <;> (rw [hc] at e2; cases e2)
+  · rw [hc] at e1; cases e1
 
 /-- separation after every history from the empty world -/
-theorem frozen_separation_any_history (ops : List Op) (f i r c : Addr)
+theorem frozen_separation_any_history (ops : List Op) (f i r c : Addr) (o : Bool) (kvs : List (Key × Val))
     (hf : (run World.init ops).heap[f]? = some (Obj.frozen i)) (hr : Val.ref r ∈ (run World.init ops).roots)
+    (hc : (run World.init ops).heap[c]? = some (Obj.dict o kvs))
     (h1 : Reach (run World.init ops).heap i c) (h2 : Reach (run World.init ops).heap r c) : False :=
-  frozen_separation _ (sep_run ops _ sep_init) f i r c hf hr h1 h2
+  frozen_separation _ (sep_run ops _ sep_init) f i r c o kvs hf hr hc h1 h2
 
 /-! ### non-vacuity: a concrete history -/
 
